@@ -31,7 +31,7 @@ theorem lock_of_break_both (F : Frame inpS inpW δ) (hcl : Closed inpS inpW δ) 
     (h : MRel δ d 0 ab sm ms mw) (hP : ab.P = true)
     (hfl : ms.c.isLast = false → (fs st).2.le ab.boundary = true ∧ (ab.Sn = true → ab.St = true))
     (hsm : sm = .none ∨ (sm = .inSeq ∧ hasSeq sd = true))
-    (hdebt : 0 < d → hasEoc sd = true) (hK : K d ms.x.sink mw.x.sink) (hd0 : ms.c.isLast = true → d = 0)
+    (hdebt : 0 < d → hasEoc sd = true) (hK : K d ms.x.sink mw.x.sink) (hd0 : d = 0)
     (hloc : 0 < d → Loc ms.x.sink ms.x.prevConsumed (lexStart ms.r) ms.c.lastTextType) :
     LockOut env.tbl fs inpW δ K Loc true (breakOnEndOfInput inpS ms) (breakOnEndOfInput inpW mw) := by
   have hsm' : sm ≠ .stale := by
@@ -45,13 +45,13 @@ theorem lock_of_break_both (F : Frame inpS inpW δ) (hcl : Closed inpS inpW δ) 
         (breakOnEndOfInput inpS ms).1.c.lastTextType := by
       intro hd
       cases hlast : ms.c.isLast with
-      | true => have := hd0 hlast; omega
+      | true => omega
       | false =>
         obtain ⟨bf1, _, bf3⟩ := break_facts inpS ms hlast h1
         rw [h5, bf1, bf3, consumed_lexStart h hd]
         exact hloc hd
     refine ⟨rfl, d, h3, h4, by rw [h5, h6]; exact h.sim, by rw [h5, h6]; exact h.pc, fun hl => ?_,
-      fun hl => hd0 (by rw [← hil]; exact hl), hlocOut, fun hl => (break_facts inpS ms (by rw [← hil]; exact hl) h1).2.1⟩
+      hd0, hlocOut, fun hl => (break_facts inpS ms (by rw [← hil]; exact hl) h1).2.1⟩
     have hl' : ms.c.isLast = false := by
       have := breakOnEndOfInput_isLast inpS ms
       rw [← this]; exact hl
@@ -179,7 +179,7 @@ theorem runSeqArms_lock (F : Frame inpS inpW δ) (hops : OpsSim env.ops inpS inp
                 exact ⟨_, rfl, lock_of_break_both F he2 (by rw [hcs]; exact cx) he rfl
                   (fun _ => ⟨by rw [Ab.inStep_boundary cx.ok.p2]; rw [Ab.le_iff]; simp, fun g => cx.ok.sn2 g⟩)
                   (Or.inr ⟨rfl, hinSeq⟩)
-                  (fun h => absurd h (Nat.lt_irrefl 0)) (by rw [hxs, hxw]; exact hK) (fun _ => rfl)
+                  (fun h => absurd h (Nat.lt_irrefl 0)) (by rw [hxs, hxw]; exact hK) rfl
                   (fun h => absurd h (Nat.lt_irrefl 0))⟩
               · right
                 have hl : ms.c.isLast = false := by
